@@ -116,8 +116,23 @@ from pyxform.xls2xform import convert
 forms = json.loads(sys.stdin.read())
 out = {{}}
 for name, wb in forms["forms"].items():
-    r = convert(copy.deepcopy(wb))
-    out[name] = [r.xform, list(r.warnings), r.itemsets]
+    # each form in its own forked copy of this interpreter: same hash seed, no history from the other forms
+    rfd, wfd = os.pipe()
+    pid = os.fork()
+    if pid == 0:
+        os.close(rfd)
+        try:
+            r = convert(copy.deepcopy(wb))
+            data = json.dumps([r.xform, list(r.warnings), r.itemsets])
+        except BaseException as e:
+            data = json.dumps(["EXC " + type(e).__name__ + ": " + str(e), [], None])
+        with os.fdopen(wfd, "w") as f:
+            f.write(data)
+        os._exit(0)
+    os.close(wfd)
+    with os.fdopen(rfd) as f:
+        out[name] = json.loads(f.read())
+    os.waitpid(pid, 0)
 perms = {{}}
 for combo in forms["probe"]:
     perms["|".join(combo)] = list(set(combo))
